@@ -29,6 +29,9 @@ RULE = ("One evaluation = one seeded execution: each side with or without a "
         "runs.")
 RULE += (' Relay topologies: none, one shared, sender-only, dead, or one relay per side (two hints of equal priority).')
 RULE += (" In a third of the runs one party's application cancels connect() while the race is open; sockets readable in the same reactor iteration are then still read once after loseConnection().")
+RULE += (" In half of the runs sockets that were readable in the reactor "
+         "iteration in which the Sender decides are still read once after "
+         "their loseConnection() (late contenders are told 'nevermind').")
 RULE += (" Strangers include a host named in a relay hint that answers the "
          "relay request with 'ok' and, in the same write, bytes that are not "
          "the peer's handshake, and a key holder that speaks as a Sender "
@@ -367,10 +370,21 @@ def run_one(seed, tape, opts):
     sim.fault_events = fault_events
     go_writes = []
 
+    go_batch = tape.choose(2, "go_batch") == 0 and not focus
+
     def on_write(end, data):
         w._on_write(end, data)
         if data == b"go\n" and w.owner_of_end(end) is S:
             go_writes.append(end)
+            if go_batch and batch[0] == 0 and not net.read_after_lose:
+                # the decision is taken inside one socket's dataReceived:
+                # other sockets that were readable in the same reactor
+                # iteration are still read once although the Sender has just
+                # called loseConnection() on them (a late contender then
+                # completes its handshake and is told "nevermind")
+                batch[0] = 1 + tape.choose(3, "go_batch_n")
+                net.read_after_lose = True
+                sim.note("probe.same_iteration_reads_at_decision")
     sim.on_write = on_write
 
     def party_conns(p):
